@@ -404,7 +404,9 @@ var exception_catch(var args) {
   
   /* Check Exception against Arguments */
   foreach(arg in args) {
-    if (eq(arg, e->obj)) {
+    /* objects of another type cannot be the exception listed here
+    ** (and comparing them may itself raise) */
+    if (type_of(arg) is type_of(e->obj) and eq(arg, e->obj)) {
       return e->obj;
     }
   }
